@@ -193,6 +193,9 @@ def run(ctx):
     # asks the deserializer for a borrowed &str: such an impl refuses every spelling that contains a JSON escape
     from . import C18 as _C18
     _C18.no_borrowed_str_rule(ctx, w, "C19.no-borrowed-str", floor=1500 if thorough else 1200)
+    # the hand-written string enums with a separate parser (JoinRule) or several tables (MessageType::new / Deserialize / msgtype()) are covered by the
+    # table-agreement rule of C18: each specified spelling maps to its dedicated variant on every path
+    _C18.string_dispatch_rule(ctx, w, "C19.string-dispatch")
     ctx.assumptions += ["hand-written string enums (UriAction, VoipVersionId, TagName, JoinRule, ...) are not covered by the template rule",
                         "_Custom cannot be constructed with a known spelling from outside the crate (PrivOwnedStr is private: compile_fail witness in /verif/witnesses)"]
     ctx.samples += [{"enum": "MembershipState", "F": {"join": "Join"}, "G": {"Join": "join"}},
